@@ -71,7 +71,7 @@ VARIABLES hs, ev
 hvars == <<hs, ev>>
 
 (* the stack model of one record; its own enumeration variables are not used here *)
-C == INSTANCE Caller WITH cell <- 0, phase <- "hist"
+C == INSTANCE Caller WITH cell <- 0, phase <- "hist", LineSites <- {}
 
 HIds == 1..HMaxLoggers
 PkgFams == {"pkgverb", "pkgctx"}
